@@ -92,6 +92,19 @@ def check_case(case, caps=None):
     trig = None
     nontrivial = False
     sample = None
+    main_src = src if isinstance(src, str) else src.get("", "")
+    mods_only = None if isinstance(src, str) else {k: v for k, v in src.items() if k}
+    _refs = {}
+
+    def _ref_for(es):
+        # the reference run is only needed when two vectors differ in a numeric value (conditioning of the source)
+        if es not in _refs:
+            try:
+                _refs[es] = H.run_ref(main_src, es, lits, modules=mods_only, **caps)
+            except Exception:
+                _refs[es] = None
+        return _refs[es]
+
     if len(oks) >= 2:
         for es in case["env_seeds"]:
             base = None
@@ -111,7 +124,9 @@ def check_case(case, caps=None):
                     if len(vm["effects"]) >= 3:
                         nontrivial = True
                     continue
-                verdict, info = H.compare_traces(base[1], vm, "a", "b")
+                verdict, info, cond = H.compare_conditioned(base[1], vm, "a", "b", (lambda: _ref_for(es)), lambda: H.run_ref(main_src, es, lits, modules=mods_only, perturb=True, **caps))
+                if cond:
+                    cnt["ill_conditioned"] = cnt.get("ill_conditioned", 0) + 1
                 cnt["compared"] += 1
                 cnt["effects_compared"] += min(len(vm["effects"]), len(base[1]["effects"]))
                 if verdict == "same":
